@@ -70,3 +70,83 @@ func reduceAxes(input tensor.Tensor, axes []int, keepDims bool, reduce reduceFun
 
 	return out, nil
 }
+
+// softmax calculates the softmax along the given axis: exp(x - max) / sum(exp(x - max)), where
+// max is the maximum along the axis. Subtracting the maximum does not change the result, but
+// the exponentials can not overflow. When log is set, the logarithm of the softmax is returned
+// instead, calculated as (x - max) - log(sum(exp(x - max))).
+func softmax(input tensor.Tensor, axis int, log bool) (tensor.Tensor, error) {
+	max, err := reduceAxes(input, []int{axis}, true, func(t *tensor.Dense, axis int) (*tensor.Dense, error) {
+		return t.Max(axis)
+	})
+	if err != nil {
+		return nil, err
+	}
+
+	input, max, err = ops.UnidirectionalBroadcast(input, max)
+	if err != nil {
+		return nil, err
+	}
+
+	shifted, err := tensor.Sub(input, max)
+	if err != nil {
+		return nil, err
+	}
+
+	// The exponential of a very negative number is zero, but it is not calculated correctly
+	// for all of them, so these are clamped to a value whose exponential is (almost) zero.
+	var minExponent, maxExponent any
+
+	switch input.Dtype() {
+	case tensor.Float32:
+		minExponent, maxExponent = float32(minExponent32), float32(0)
+	case tensor.Float64:
+		minExponent, maxExponent = float64(minExponent64), float64(0)
+	default:
+		return nil, ops.ErrCast
+	}
+
+	clamped, err := tensor.Clamp(shifted, minExponent, maxExponent)
+	if err != nil {
+		return nil, err
+	}
+
+	exponentials, err := tensor.Exp(clamped)
+	if err != nil {
+		return nil, err
+	}
+
+	sum, err := reduceAxes(exponentials, []int{axis}, true, func(t *tensor.Dense, axis int) (*tensor.Dense, error) {
+		return t.Sum(axis)
+	})
+	if err != nil {
+		return nil, err
+	}
+
+	if log {
+		logSum, err := tensor.Log(sum)
+		if err != nil {
+			return nil, err
+		}
+
+		shifted, logSum, err = ops.UnidirectionalBroadcast(shifted, logSum)
+		if err != nil {
+			return nil, err
+		}
+
+		return tensor.Sub(shifted, logSum)
+	}
+
+	exponentials, sum, err = ops.UnidirectionalBroadcast(exponentials, sum)
+	if err != nil {
+		return nil, err
+	}
+
+	return tensor.Div(exponentials, sum)
+}
+
+// The smallest exponents that are used in the softmax for float32 and float64.
+const (
+	minExponent32 = -100.0
+	minExponent64 = -740.0
+)
